@@ -269,16 +269,16 @@ theorem shape_Conn_h_PING : Facts.shape_Conn_h_PING = some "02bfeef3d2f7e297" :=
 /-- [C18] `hasPort` is the body the model transcribes -/
 theorem shape_hasPort : Facts.shape_hasPort = some "f92aadd816c5f5b2" := by decide
 
-/-- [C18] `Conn.internalConnect` is the body the model transcribes -/
+/-- [C06,C07,C18] `Conn.internalConnect` is the body the model transcribes -/
 theorem shape_Conn_internalConnect : Facts.shape_Conn_internalConnect = some "bc56d29103a613af" := by decide
 
 /-- [C18] `Conn.dialProxy` is the body the model transcribes -/
 theorem shape_Conn_dialProxy : Facts.shape_Conn_dialProxy = some "05cdd1be62679cc4" := by decide
 
-/-- [C18] `Conn.postConnect` is the body the model transcribes -/
+/-- [C06,C07,C18] `Conn.postConnect` is the body the model transcribes -/
 theorem shape_Conn_postConnect : Facts.shape_Conn_postConnect = some "9f8d669890c827d5" := by decide
 
-/-- [C18] `Conn.ping` is the body the model transcribes -/
+/-- [C06,C07,C18] `Conn.ping` is the body the model transcribes -/
 theorem shape_Conn_ping : Facts.shape_Conn_ping = some "fb69317c11dce15c" := by decide
 
 /-- [C12,C13,C14] `st.stateTracker.Wipe` is the body the model transcribes -/
@@ -383,7 +383,7 @@ theorem shape_st_newNick : Facts.shape_st_newNick = some "db7033187a769df5" := b
 /-- [C12,C13,C14] `st.newChannel` is the body the model transcribes -/
 theorem shape_st_newChannel : Facts.shape_st_newChannel = some "362560a59c5095b8" := by decide
 
-/-- [C03,C07,C09] `Conn.send` is the body the model transcribes -/
+/-- [C03,C06,C07,C09] `Conn.send` is the body the model transcribes -/
 theorem shape_Conn_send : Facts.shape_Conn_send = some "4d182839e3592463" := by decide
 
 /-- [C03,C05,C16] `Conn.dispatch` is the body the model transcribes -/
@@ -392,7 +392,7 @@ theorem shape_Conn_dispatch : Facts.shape_Conn_dispatch = some "3d33b8cc2bacfd5b
 /-- [C03,C05,C16] `hSet.dispatch` is the body the model transcribes -/
 theorem shape_hSet_dispatch : Facts.shape_hSet_dispatch = some "b159c1b6e35eedc0" := by decide
 
-/-- [C03,C05,C16] `Conn.runLoop` is the body the model transcribes -/
+/-- [C03,C05,C06,C07,C16] `Conn.runLoop` is the body the model transcribes -/
 theorem shape_Conn_runLoop : Facts.shape_Conn_runLoop = some "3e135fe163f79108" := by decide
 
 /-- [C01,C02,C03] `Conn.recv` is the body the model transcribes -/
@@ -457,6 +457,21 @@ theorem tracker_returns : Facts.trackerReturns = some ["Associate:cp.Copy()", "A
     "GetNick:nk.Nick()", "IsOn:false", "IsOn:nil", "IsOn:nk.isOn(ch)", "Me:st.me.Nick()", "NewChannel:nil", "NewChannel:st.chans[c].Channel()",
     "NewNick:nil", "NewNick:st.nicks[n].Nick()", "NickInfo:nil", "NickInfo:nk.Nick()", "NickModes:nil", "NickModes:nk.Nick()", "ReNick:nil",
     "ReNick:nk.Nick()", "String:str", "Topic:ch.Channel()", "Topic:nil"] := by decide
+
+/-- [C06,C07] `Conn.ConnectContext` is the body the model transcribes -/
+theorem shape_Conn_ConnectContext : Facts.shape_Conn_ConnectContext = some "6b90b9428cf36912" := by decide
+
+/-- [C06,C07] `Conn.Close` is the body the model transcribes -/
+theorem shape_Conn_Close : Facts.shape_Conn_Close = some "dd307aad985d0218" := by decide
+
+/-- [C06,C07] `Conn.closeFor` is the body the model transcribes -/
+theorem shape_Conn_closeFor : Facts.shape_Conn_closeFor = some "7677fcb16908cfe7" := by decide
+
+/-- [C06,C07] `Conn.initialise` is the body the model transcribes -/
+theorem shape_Conn_initialise : Facts.shape_Conn_initialise = some "ea200d427896e9d6" := by decide
+
+/-- [C06,C07] `Conn.Connected` is the body the model transcribes -/
+theorem shape_Conn_Connected : Facts.shape_Conn_Connected = some "e2923fb475642ec1" := by decide
 
 
 end FactsCheck
